@@ -393,9 +393,24 @@ fn prop(case: &Case, info: &mut CaseInfo) -> Verdict {
                 proc.commit();
             }
         }
-        let snapshot = report.into_snapshot(&exceptions, &mut metrics);
-        MSet::from_snapshot(&snapshot)
+        // through the history, as the server does: what RTR clients get for a reset query and what the
+        // HTTP outputs are rendered from must both be the composition
+        let history = routinator::payload::SharedHistory::from_config(&config);
+        history.update(report, &exceptions, metrics);
+        history.mark_update_done();
+        let snapshot = history.read().current().expect("snapshot installed");
+        let from_snapshot = MSet::from_snapshot(&snapshot);
+        let (_, _, items) = crate::hist::rtr_full(&history);
+        let n = items.len();
+        let rtr = MSet::from_items(items);
+        (from_snapshot, rtr, n)
     });
+    let (served, rtr, rtr_items) = served;
+    if let Ok(s) = &served {
+        if rtr != *s || rtr_items != s.len() {
+            return Verdict::fail("C09/rtr-full-set-differs-from-snapshot", format!("the full data set handed to RTR clients ({} items: {} origins, {} router keys, {} ASPAs) differs from the snapshot's payload ({} origins, {} router keys, {} ASPAs)", rtr_items, rtr.origins.len(), rtr.keys.len(), rtr.aspas.len(), s.origins.len(), s.keys.len(), s.aspas.len()));
+        }
+    }
     let served = match served {
         Ok(s) => s,
         Err(e) => return Verdict::fail("C09/item-listed-twice", e),
@@ -419,7 +434,7 @@ fn prop(case: &Case, info: &mut CaseInfo) -> Verdict {
 }
 
 pub fn run(ctx: &Ctx, rep: &mut Report, replay: Option<&serde_json::Value>) {
-    rep.rule("validated payload injected through routinator's own ValidationReport interface: 1-4 publication points (one TAL each) with ROA content drawn from a small pool of related prefixes (so duplicates across points/TALs, covering/covered relations and lengths at limit-1/limit/limit+1 are common), ASPAs for 2 customers with overlapping provider sets, router certificates (real, issued and decoded) with 1-3 ASNs; 25% of points are rejected with generated resource blocks (sometimes only 0.0.0.0/0); SLURM prefix filters (prefix and/or ASN), BGPsec filters (SKI and/or ASN), prefix and BGPsec assertions; limit-v4/v6-len, unsafe-vrps, enable-bgpsec/aspa varied; 1 in 5 cases adds a group of 2-5 overlapping ASPA objects for one customer (processing order rotated, optionally followed by a small ASPA for the same customer) whose provider union is 16379/16380/16381/20000/33000; oracle = set algebra from the manual (validated - too long - unsafe(reject) - SLURM-filtered + assertions, each distinct item once; ASPA union per customer, dropped above 16380); non-trivial = >=2 operators act in the case; distinct by serialised case");
+    rep.rule("validated payload injected through routinator's own ValidationReport interface: 1-4 publication points (one TAL each) with ROA content drawn from a small pool of related prefixes (so duplicates across points/TALs, covering/covered relations and lengths at limit-1/limit/limit+1 are common), ASPAs for 2 customers with overlapping provider sets, router certificates (real, issued and decoded) with 1-3 ASNs; 25% of points are rejected with generated resource blocks (sometimes only 0.0.0.0/0); SLURM prefix filters (prefix and/or ASN), BGPsec filters (SKI and/or ASN), prefix and BGPsec assertions; limit-v4/v6-len, unsafe-vrps, enable-bgpsec/aspa varied; 1 in 5 cases adds a group of 2-5 overlapping ASPA objects for one customer (processing order rotated, optionally followed by a small ASPA for the same customer) whose provider union is 16379/16380/16381/20000/33000; the report is installed into a SharedHistory as the server does and read back both as the snapshot's payload and as the full set an RTR reset query is answered with; oracle = set algebra from the manual (validated - too long - unsafe(reject) - SLURM-filtered + assertions, each distinct item once; ASPA union per customer, dropped above 16380); non-trivial = >=2 operators act in the case; distinct by serialised case");
     rep.assume("object content comes from signed-and-decoded ROAs/ASPAs/router certificates; certificate-level validation is the subject of C01/C02, not of this check");
     if let Some(v) = replay {
         let t: Tagged<Case> = serde_json::from_value(v.clone()).expect("replay");
